@@ -129,7 +129,7 @@ func init() {
 			return []string{"release", "noopt", "nooptl", "race"}
 		},
 		Required: []string{"cmp/equal", "cmp/prefix", "cmp/differ", "cmp/same-bytelen", "cmp/diff-bytelen", "cmp/empty-vs-nonempty", "upto/a-shorter", "upto/a-equal", "upto/a-longer",
-			"upto/empty-b", "upto/unaligned-b", "upto/dirty-spare-capacity", "upto/long>=8", "upto/short<8", "str/site=arg", "str/site=field", "str/site=elem", "str/site=closure", "str/site=map", "str/site=substr"},
+			"upto/empty-b", "upto/unaligned-b", "upto/dirty-spare-capacity", "cmp/prefix-view-same-base-address", "new/aligned-empty-after-scribble", "upto/long>=8", "upto/short<8", "str/site=arg", "str/site=field", "str/site=elem", "str/site=closure", "str/site=map", "str/site=substr"},
 		Families: func(c *mon.Config) []mon.Family {
 			rows := 4051
 			step := 1
@@ -424,7 +424,69 @@ func c09KeyZoo(w *mon.W, idx int) {
 			}
 		}
 	}
+	// prefix views: e[:k] of an encoding e is itself a valid encoding whenever its last byte is a
+	// mask byte consistent with the payload byte before it. The two slices then start at the same
+	// address; Cmp must still order them by their bit strings.
+	views := 0
+	for _, e := range encs {
+		for k := 1; k < len(e.enc); k++ {
+			v := c09View(e.enc[:k])
+			if v == nil {
+				continue
+			}
+			views++
+			if !c09CheckCmp(w, v, e) || !c09CheckCmp(w, e, v) || !c09CheckCmp(w, v, v) {
+				return
+			}
+			w.Eval(3)
+			w.Bucket("cmp/prefix-view-same-base-address")
+		}
+	}
 	w.Sample(func() interface{} {
-		return mon.D{"keys": fmt.Sprintf("%q", keys), "encodings": len(encs)}
+		return mon.D{"keys": fmt.Sprintf("%q", keys), "encodings": len(encs), "prefix_views": views}
 	})
+	// hostile caller: the encodings New returned in this case belong to us; overwrite them. A New
+	// that hands out shared memory (e.g. one constant for every empty range) poisons later results.
+	for _, e := range encs {
+		scribbleB(e.enc)
+	}
+	for _, s := range []string{"", "ab"} {
+		for _, ft := range [][2]int{{0, 0}, {8, 8}, {16, 16}} {
+			if ft[1] <= 8*len(s) {
+				if e := c09New(w, s, ft[0], ft[1]); e != nil {
+					w.Bucket("new/aligned-empty-after-scribble")
+					scribbleB(e.enc)
+				} else {
+					return
+				}
+			}
+		}
+	}
+}
+
+// c09View interprets b as an encoding if it is a valid one: last byte a mask (k leading ones) and the
+// payload byte before it has no bit outside that mask; the single byte 0xff is the empty encoding.
+func c09View(b []byte) *c09Enc {
+	n := len(b)
+	if n == 0 {
+		return nil
+	}
+	m := b[n-1]
+	ones := 0
+	for x := m; x&0x80 != 0; x <<= 1 {
+		ones++
+	}
+	if m != byte(0xff<<uint(8-ones)) || ones == 0 {
+		return nil
+	}
+	if n == 1 {
+		if m != 0xff {
+			return nil
+		}
+		return &c09Enc{enc: b, bits: "", s: "(view)"}
+	}
+	if b[n-2]&^m != 0 {
+		return nil
+	}
+	return &c09Enc{enc: b, bits: c09ByteText(b[:n-1], 8*(n-2)+ones), s: "(view)"}
 }
